@@ -365,13 +365,21 @@ fn run_in(dir: &std::path::Path, ops: &[DOp]) -> String {
                 let r = db.execute(&sql_of(st)).map_err(|e| e.to_string());
                 hist::show_result(r, is_read(st), &mut diag)
             }
-            DOp::Vacuum => match db.vacuum() {
-                Ok(_) => "ok".to_string(),
-                Err(e) => {
-                    diag.push(e.to_string().chars().take(100).collect());
-                    hist::err_class(&e.to_string()).to_string()
+            DOp::Vacuum => {
+                let o = match db.vacuum() {
+                    Ok(_) => "ok".to_string(),
+                    Err(e) => {
+                        diag.push(e.to_string().chars().take(100).collect());
+                        hist::err_class(&e.to_string()).to_string()
+                    }
+                };
+                // VACUUM has rolled back every open transaction; the session objects are never finished (leaked): nothing
+                // but the VACUUM itself and the close may have recorded their rollback
+                for (_, s) in std::mem::take(&mut sessions) {
+                    std::mem::forget(s);
                 }
-            },
+                o
+            }
             DOp::Audit => continue,
             DOp::Reopen => {
                 sessions.clear();
@@ -1043,6 +1051,43 @@ fn gen_refused_commit_reopen(rng: &mut Rng, out: &mut Vec<Case>) {
     out.push(Case { line: format!("ddl | {}", ops.join(" ; ")), tags });
 }
 
+/// VACUUM while a session holds uncommitted work — rows, and a table it created: VACUUM rolls the transaction back and
+/// the session object is never finished; after close and reopen (once or twice) nothing of it may be there.  With and
+/// without a commit between the session's begin and the VACUUM.  Clean region.
+fn gen_vacuum_open_session(rng: &mut Rng, out: &mut Vec<Case>) {
+    let mut ops: Vec<String> = vec!["db ct u(k:big*,v:int)".into(), "db ins u 1 10 ; db ins u 2 20".into()];
+    ops.push("s1 begin".into());
+    ops.push("s1 ins u 7 70".into());
+    if rng.chance(2, 3) {
+        ops.push("s1 ct w(a:int,b:int) ; s1 ins w 1 2".into());
+    }
+    if rng.chance(1, 3) {
+        ops.push("s1 del u where v eq 10".into());
+    }
+    if rng.chance(1, 3) {
+        ops.push("s2 begin ; s2 ins u 8 80".into());
+    }
+    if rng.chance(1, 3) {
+        // a commit after the session began moves the horizon past it
+        ops.push("db ins u 3 30".into());
+    }
+    ops.push("vacuum".into());
+    if rng.chance(1, 2) {
+        ops.push("db sel u ; db sel w".into());
+    }
+    if rng.chance(1, 3) {
+        ops.push("db ins u 4 40".into());
+    }
+    ops.push("reopen".into());
+    ops.push("db sel u ; db sel w ; db ins u 7 71 ; db ct w(a:int) ; db ins w 5 ; db sel w".into());
+    if rng.chance(1, 2) {
+        ops.push("reopen ; db sel u ; db sel w".into());
+    }
+    ops.push("audit".into());
+    let tags: Vec<String> = vec!["c15".into(), "vacuum_open_session".into(), "reopen".into(), "nt".into(), "clean".into()];
+    out.push(Case { line: format!("ddl | {}", ops.join(" ; ")), tags });
+}
+
 /// CREATE UNIQUE INDEX / ADD CONSTRAINT UNIQUE over rows that collide: refused, and the table must stay usable (rows
 /// inserted and read afterwards, duplicates still accepted); then the duplicates are deleted, the same DDL succeeds
 /// and a duplicate is refused; in autocommit or inside a session that goes on and commits, sometimes with a reopen.
@@ -1078,6 +1123,11 @@ fn gen_index_over_duplicates(rng: &mut Rng, out: &mut Vec<Case>) {
     if rng.chance(1, 2) {
         ops.push(format!("reopen ; db ins {} 2 14 ; db ins {} 7 15 ; db sel {}", t, t, t));
     }
+    // PRIMARY KEY over a column that holds NULL: refused until the NULLs are gone
+    if rng.chance(1, 2) {
+        ops.push(format!("db ct p(k:big,v:int) ; db ins p null 1 ; db ins p 2 2 ; db ak p ^k ; db ins p null 3 ; db sel p"));
+        ops.push("db del p where v eq 1 ; db del p where v eq 3 ; db ak p ^k ; db ins p null 4 ; db ins p 2 5 ; db ins p 3 6 ; db sel p".into());
+    }
     let tags: Vec<String> = vec!["c15".into(), "index_over_duplicates".into(), "nt".into(), "clean".into()];
     out.push(Case { line: format!("ddl | {}", ops.join(" ; ")), tags });
 }
@@ -1099,6 +1149,9 @@ impl Engine for DdlEngine {
         }
         for _ in 0..(if tier == Tier::Quick { 30 } else { 300 }) {
             gen_refused_commit_reopen(rng, &mut out);
+        }
+        for _ in 0..(if tier == Tier::Quick { 30 } else { 300 }) {
+            gen_vacuum_open_session(rng, &mut out);
         }
         let want = if tier == Tier::Quick { 600 } else { 6000 };
         let want = want + out.len();
